@@ -584,7 +584,9 @@ func runC16(r *report.Report) {
 		part(r, "w1", params{Prop: "C16", Depth: 6, Window: 1, QOS: []int{0, 1, 2}, Faults: true}, 0)
 		part(r, "w2", params{Prop: "C16", Depth: 6, Window: 2, QOS: []int{0, 1, 2}, Ooo: true}, 0)
 		part(r, "w2-reordered", params{Prop: "C16", Depth: 4, Window: 2, QOS: []int{1, 2}}, 1)
+		part(r, "w2-over-baseconn", params{Prop: "C16", Depth: 6, Window: 2, QOS: []int{0, 1, 2}, Ooo: true, Real: true}, 0)
 	} else {
+		part(r, "w2-over-baseconn", params{Prop: "C16", Depth: 8, Window: 2, QOS: []int{0, 1, 2}, Ooo: true, Real: true}, 0)
 		part(r, "w1", params{Prop: "C16", Depth: 8, Window: 1, QOS: []int{0, 1, 2}, Faults: true}, 0)
 		part(r, "w2", params{Prop: "C16", Depth: 8, Window: 2, QOS: []int{0, 1, 2}, Faults: true, Ooo: true}, 0)
 		part(r, "w3", params{Prop: "C16", Depth: 9, Window: 3, QOS: []int{1, 2}, Ooo: true}, 0)
